@@ -573,7 +573,7 @@ def make_tree_case(rng, n, kind=None, scheme=None, p_internal=0.3, permute=True)
     return {"n": n, "parent": parent, "flags": flags, "times": times, "kind": kind, "scheme": scheme}
 
 
-LABEL_ALPHABET = "abcXYZ019_-. '[]{}|/\\#&*"
+LABEL_ALPHABET = "abcXYZ019_-. '[]{}|/\\#&*%\"\u00e9\u03b1"
 
 
 def make_query(rng, tc, root_mode=None):
@@ -665,6 +665,40 @@ class Newick(Family):
             if rng.random() < 0.04:
                 q["precision"] = rng.choice([18, 25, -1, -3])
             yield {"tree": tc, "q": q}
+        # --- every option combination on both paths, for a few trees (round-5 class 2) ---------
+        for tc in ([make_tree_case(rng, 4, kind="random", scheme="int"),
+                    make_tree_case(rng, 5, kind="caterpillar", scheme="frac")] if quick else
+                   [make_tree_case(rng, rng.choice([3, 4, 5, 6]), scheme=rng.choice(["int", "frac", "neg_int"]))
+                    for _ in range(10)]):
+            n = tc["n"]
+            some = sorted(rng.sample(range(n), max(1, n // 2)))
+            label_sets = ["default", "ms", [], [[u, "L{%d}%%s\"\u00e9" % u] for u in some],
+                          [[u, "x%d" % u] for u in range(n)]]
+            for labels in label_sets:
+                for ibl in (None, True, False):
+                    for prec in (None, 0, 3, 17):
+                        for root in [None] + list(range(n)):
+                            yield {"tree": tc, "q": {"root": root, "precision": prec, "labels": labels, "ibl": ibl}}
+        # --- buffer-size boundaries (round-5 class 11): label and branch-length digit counts at
+        # powers of ten, every precision 0..17; all-sample stars and chains are the worst cases
+        bvals = [9.0, 10.0, 11.0, 99.0, 100.0, 101.0, 999.0, 1000.0, 9.5, 99.5, 999.5, 0.5, 1.0, 1e15, 1e15 + 2,
+                 9.999, 99.9999, 1e-9, 123456789.125]
+        for k in range(160 if quick else 1600):
+            n = rng.choice([2, 3, 9, 10, 11, 12])
+            top = rng.choice(bvals)
+            kind = rng.choice(["star", "chain"])
+            parent = ([n - 1] * (n - 1) + [NULL]) if kind == "star" else ([i + 1 for i in range(n - 1)] + [NULL])
+            if kind == "star":
+                times = [0.0] * (n - 1) + [top]
+            else:
+                times = [top * i / (n - 1) for i in range(n)]
+                if len(set(times)) < n:
+                    continue
+            if rng.random() < 0.3:
+                times = [t - top for t in times]            # all times <= 0
+            tc = {"n": n, "parent": parent, "flags": [1] * n, "times": times, "kind": kind, "scheme": "digits"}
+            yield {"tree": tc, "q": {"root": rng.choice([None, None, n - 1]), "precision": k % 18,
+                                     "labels": rng.choice(["default", "default", "ms"]), "ibl": None}}
         # --- sizes up to 2000: chains, stars, random x schemes -----------------------
         sizes = [99, 100, 101, 500, 999, 1000, 1001, 2000] if quick else [99, 100, 101, 250, 500, 999, 1000, 1001, 1500, 2000]
         for n in sizes:
@@ -727,7 +761,10 @@ class Newick(Family):
 # multi-tree sequences
 # ----------------------------------------------------------------------------------
 TMAPS = {"id": lambda t: t, "eighth": lambda t: t / 8 + 1 / 3, "mega": lambda t: t * 1e6,
-         "neg": lambda t: t - 5, "milli": lambda t: t * 0.001}
+         "neg": lambda t: t - 5, "milli": lambda t: t * 0.001,
+         # strictly increasing, root times of different trees / subtrees differ by many digits
+         "exp": lambda t: 10.0 ** min(t, 15) + max(t - 15, 0) * 1e15,
+         "exp3": lambda t: 1000.0 ** min(t, 5) - 1 + max(t - 5, 0) * 1e15}
 
 
 def connected_desc(rng, max_nodes=9, max_L=6, scale=None, p_gap=0.0, sites=False):
@@ -837,6 +874,7 @@ class NewickTs(Family):
                                           metadata=False, alleles=("A", "C", "G", "T"))
                 if not desc["nodes"]:
                     continue
+                desc, _pi = gen_ts.permute_node_ids(rng, desc)      # ids not in time order
             desc = apply_tmap(desc, rng.choice(list(TMAPS)))
             bps = gen_ts.breakpoints(desc)
             x = rng.choice(bps[:-1])
@@ -934,7 +972,8 @@ class Nexus(Family):
                 desc = gen_ts.random_desc(rng, max_nodes=8, individuals=False, populations=False,
                                           metadata=False, alleles=("A", "C", "G", "T"), unknown_times=True)
                 desc["sites"], desc["mutations"] = [], []
-            desc = apply_tmap(desc, rng.choice(["id", "id", "eighth", "mega", "neg"]))
+                desc, _pi = gen_ts.permute_node_ids(rng, desc)
+            desc = apply_tmap(desc, rng.choice(["id", "id", "eighth", "mega", "neg", "exp", "exp3"]))
             L = desc["L"] * desc["scale"]
             opts = {"precision": rng.choice([None, None, 0, 3, 17]),
                     "include_trees": rng.choice([None, None, True, False]),
@@ -1473,6 +1512,101 @@ class BufSize(Family):
         return {"n": case["n"]}
 
 
+class NewickReuse(Family):
+    """Round-5 class 7: ONE Tree object used for a history of calls -- moved along the sequence
+    (first/next/seek, what ts.trees() and write_nexus do), asked for several roots and precisions
+    -- with root times that differ by many digits between the steps.  Every step is judged and
+    model-checked exactly like a call on a fresh Tree."""
+    name = "newick_reuse"
+    prelude = Newick.prelude
+    workers = 8
+    shard = 60
+
+    def generate(self, rng, tier):
+        for _ in range(150 if tier == "quick" else 1500):
+            desc = connected_desc(rng, max_nodes=8, max_L=6, p_gap=0.0)
+            desc = apply_tmap(desc, rng.choice(["exp", "exp", "exp3", "mega", "eighth"]))
+            bps = gen_ts.breakpoints(desc)
+            n = len(desc["nodes"])
+            flags = [r[0] for r in desc["nodes"]]
+            times = [r[1] for r in desc["nodes"]]
+            steps = []
+            xs = list(bps[:-1])
+            if rng.random() < 0.3:
+                rng.shuffle(xs)
+            fixed_prec = rng.choice([None, 0, 3])
+            for x in xs:
+                par = gen_ts.parent_at(desc, x)
+                tc = {"n": n, "parent": par, "flags": flags}
+                # youngest requested roots first, the tree's own root last
+                order = sorted(range(n), key=lambda u: times[u])
+                picks = [rng.choice(order[:max(1, n // 2)]), rng.choice(order)]
+                for root in picks + [None]:
+                    q = make_query(rng, tc)
+                    q["root"] = root
+                    if rng.random() < 0.7:
+                        q["labels"], q["ibl"], q["precision"] = rng.choice(["default", "default", "ms"]), None, fixed_prec
+                    steps.append({"x": x, "q": q})
+            yield {"desc": desc, "steps": steps[:8]}
+
+    def observe(self, case):
+        import tskit
+        desc = case["desc"]
+        ts = gen_ts.build_tables(desc).tree_sequence()
+        tree = tskit.Tree(ts)
+        discrete = desc_discrete_time(desc)
+        out, last = [], None
+        for st in case["steps"]:
+            pos = st["x"] * desc["scale"]
+            if last is None:
+                tree.first()
+                if not (tree.interval.left <= pos < tree.interval.right):
+                    tree.seek(pos)
+            elif st["x"] != last:
+                if tree.interval.right == pos:
+                    tree.next()
+                else:
+                    tree.seek(pos)
+            last = st["x"]
+            out.append(run_queries(tree, ts, st["q"], discrete, want_arrays=True))
+        return {"steps": out}
+
+    def oracle(self, case, obs):
+        desc = case["desc"]
+        flags = [r[0] for r in desc["nodes"]]
+        times = [float(r[1]) for r in desc["nodes"]]
+        discrete = desc_discrete_time(desc)
+        fails, seen = [], set()
+        for k, (st, o) in enumerate(zip(case["steps"], obs["steps"])):
+            for key, msg in judge(gen_ts.parent_at(desc, st["x"]), flags, times, discrete, st["q"], o):
+                key = "reuse-" + key
+                if key not in seen:
+                    seen.add(key)
+                    fails.append((key, "step %d (x=%s, root=%s): %s" % (k, st["x"], st["q"]["root"], msg)))
+        return fails
+
+    def coq_check(self, case, obs):
+        desc = case["desc"]
+        discrete = desc_discrete_time(desc)
+        terms = []
+        for st, o in zip(case["steps"], obs["steps"]):
+            t = coq_newick_term(st["q"], o, discrete, len(desc["nodes"]))
+            if t is not None:
+                terms.append(t)
+        return " && ".join(terms) if terms else None
+
+    def nontrivial(self, case, obs):
+        return len(case["steps"]) >= 2
+
+    def describe(self, case, obs):
+        return {"steps": len(case["steps"]), "trees": len(set(st["x"] for st in case["steps"]))}
+
+    def shrink(self, case):
+        for k in range(len(case["steps"]) - 1, -1, -1):
+            if len(case["steps"]) > 1:
+                yield dict(case, steps=case["steps"][:k] + case["steps"][k + 1:])
+
+
 class NewickArgs(Family):
     """root arguments that are not nodes: -1, the virtual root N, beyond.  Outside the property's
     quantifier; recorded so that nothing but an exception (or, for the virtual root on the general
@@ -1575,7 +1709,7 @@ class NewickArgs(Family):
         return {"root-N": case["q"]["root"] - case["tree"]["n"], "result": "str" if isinstance(o, str) else o["err"]}
 
 
-FAMILIES = [Newick, NewickExact, NewickTs, NewickArgs, BufSize, Nexus, Fasta, Wrap]
+FAMILIES = [Newick, NewickExact, NewickTs, NewickReuse, NewickArgs, BufSize, Nexus, Fasta, Wrap]
 
 NOT_COVERED = [
     "float <-> decimal rendering (printf %.*f, str.format) is trusted: the model takes branch tokens and the length W of the rendered maximal branch as opaque inputs (exact instance: integer / dyadic times)",
